@@ -77,6 +77,8 @@ package best
 //@   requires res != nil && res.Participation != nil && resp != nil && resp.bid != nil && resp.score != nil && resp.provider != nil
 //@   requires res.WinningParticipation != nil ==> res.WinningParticipation.Score != nil && res.WinningParticipation.Bid != nil
 //@   requires forall b phase0.BLSPubKey :: in(builderConfigs, b) ==> builderConfigs[b] != nil
+//@   requires (len(res.Providers) > 0 ==> res.WinningParticipation != nil) && (forall k int :: 0 <= k && k < len(res.Providers) ==> res.Providers[k] != nil)
+//@   ensures (len(res.Providers) > 0 ==> res.WinningParticipation != nil) && (forall k int :: 0 <= k && k < len(res.Providers) ==> res.Providers[k] != nil)
 //@   assumes call Builder#1 (b, err): (err == nil) == builderKnown()
 //@   // C09: the winner is replaced exactly by a non-zero adjusted score that is strictly higher ...
 //@   ensures builderKnown() && adj(resp, builderConfigs) != 0 && (old(res.WinningParticipation) == nil || adj(resp, builderConfigs) > old(big(res.WinningParticipation.Score))) ==> res.WinningParticipation != nil && res.WinningParticipation.Bid == resp.bid && big(res.WinningParticipation.Score) == adj(resp, builderConfigs) && len(res.Providers) == 1 && res.Providers[0] == resp.provider
@@ -92,11 +94,14 @@ package best
 //@
 //@ func (*Service).builderBidLoop1
 //@   requires res != nil && res.Participation != nil
+//@   requires (len(res.Providers) > 0 ==> res.WinningParticipation != nil) && (forall k int :: 0 <= k && k < len(res.Providers) ==> res.Providers[k] != nil)
+//@   ensures (len(res.Providers) > 0 ==> res.WinningParticipation != nil) && (forall k int :: 0 <= k && k < len(res.Providers) ==> res.Providers[k] != nil)
 //@   requires res.WinningParticipation != nil ==> res.WinningParticipation.Score != nil && res.WinningParticipation.Bid != nil
 //@   requires forall b phase0.BLSPubKey :: in(builderConfigs, b) ==> builderConfigs[b] != nil
 //@   chaninv respCh (m): m != nil && m.provider != nil && m.score != nil
 //@   chaninv errCh (m): m != nil && m.provider != nil
 //@   loop 1
+//@     invariant (len(res.Providers) > 0 ==> res.WinningParticipation != nil) && (forall k int :: 0 <= k && k < len(res.Providers) ==> res.Providers[k] != nil)
 //@     invariant res.WinningParticipation != nil ==> res.WinningParticipation.Score != nil && res.WinningParticipation.Bid != nil
 //@     invariant old(res.WinningParticipation) != nil ==> res.WinningParticipation != nil && big(res.WinningParticipation.Score) >= old(big(res.WinningParticipation.Score))
 //@   ensures res.WinningParticipation != nil ==> res.WinningParticipation.Score != nil && res.WinningParticipation.Bid != nil
@@ -105,11 +110,14 @@ package best
 //@
 //@ func (*Service).builderBidLoop2
 //@   requires res != nil && res.Participation != nil
+//@   requires (len(res.Providers) > 0 ==> res.WinningParticipation != nil) && (forall k int :: 0 <= k && k < len(res.Providers) ==> res.Providers[k] != nil)
+//@   ensures (len(res.Providers) > 0 ==> res.WinningParticipation != nil) && (forall k int :: 0 <= k && k < len(res.Providers) ==> res.Providers[k] != nil)
 //@   requires res.WinningParticipation != nil ==> res.WinningParticipation.Score != nil && res.WinningParticipation.Bid != nil
 //@   requires forall b phase0.BLSPubKey :: in(builderConfigs, b) ==> builderConfigs[b] != nil
 //@   chaninv respCh (m): m != nil && m.provider != nil && m.score != nil
 //@   chaninv errCh (m): m != nil && m.provider != nil
 //@   loop 1
+//@     invariant (len(res.Providers) > 0 ==> res.WinningParticipation != nil) && (forall k int :: 0 <= k && k < len(res.Providers) ==> res.Providers[k] != nil)
 //@     invariant res.WinningParticipation != nil ==> res.WinningParticipation.Score != nil && res.WinningParticipation.Bid != nil
 //@     invariant old(res.WinningParticipation) != nil ==> res.WinningParticipation != nil && big(res.WinningParticipation.Score) >= old(big(res.WinningParticipation.Score))
 //@   ensures res.WinningParticipation != nil ==> res.WinningParticipation.Score != nil && res.WinningParticipation.Bid != nil
